@@ -9,11 +9,11 @@ for n in $names; do
 import json
 m=json.load(open('seeded/$n/meta.json'))
 print(m.get('check') or m['property'])")
-  if ! git -C /repo apply --check seeded/$n/patch.diff 2>/dev/null; then
+  if ! git -C /repo apply --check /verif/seeded/$n/patch.diff 2>/dev/null; then
     echo "$n check=$check: patch no longer applies to the repaired tree"
     continue
   fi
-  out=$(tools/seedtest.sh seeded/$n/patch.diff $check 2>&1)
+  out=$(tools/seedtest.sh /verif/seeded/$n/patch.diff $check 2>&1)
   rc=$(echo "$out" | grep -o 'exit=[0-9]*' | tail -1)
   first=$(echo "$out" | grep 'violated:' | head -1 | sed 's/model=.*//' | cut -c1-140)
   echo "$n check=$check $rc $first"
